@@ -275,6 +275,12 @@ func ConvertPointListToProjectedPointList(
 	geoCrsCode := wgs84.EPSG().Code(consts.GeoCrs)
 	proCrsCode := wgs84.EPSG().Code(projectedCrs)
 
+	if proCrsCode == nil {
+		// 存在しないEPSGコードの場合エラーインスタンスを返却
+		return proPointList,
+			errors.NewSpatialIdError(errors.ValueConvertErrorCode, "")
+	}
+
 	// 入力された地理座標リスト参照
 	for _, p := range pointList {
 
@@ -328,6 +334,12 @@ func ConvertProjectedPointListToPointList(
 	// 地理座標系、投影座標系をwgs84の座標参照型でインスタンス化
 	geoCrsCode := wgs84.EPSG().Code(consts.GeoCrs)
 	proCrsCode := wgs84.EPSG().Code(projectedCrs)
+
+	if proCrsCode == nil {
+		// 存在しないEPSGコードの場合エラーインスタンスを返却
+		return pointList,
+			errors.NewSpatialIdError(errors.ValueConvertErrorCode, "")
+	}
 
 	// 入力された投影座標リスト参照
 	for _, p := range projectedPointList {
